@@ -3,7 +3,7 @@
      Unesc(in, out, n)   the bytes handed in, the C string found in the block afterwards, and the block's size
    accepted iff out = Unesc(in) -- which also says that the terminator was stored where the meaning ends -- and n = Len(in)+1.
    The tools' own use is observed too:
-     Lit(in, out)        `dconv -e -f LITERAL` printed out for the literal in (no specifier inside): out = Unesc(in) *)
+     Lit(in, out)        `dconv -e -f LITERAL` printed out (all of it) for the literal in (no specifier inside): out = Unesc(in) and the auto-newline *)
 EXTENDS Unescape, Json, IOUtils, TLCExt
 VARIABLES l
 Tr == ndJsonDeserialize(IOEnv.TRACE)
@@ -12,7 +12,9 @@ TInit == l = 1 /\ Init
 Keep == UNCHANGED vars /\ l' = l + 1
 TReset == l <= Len(Tr) /\ Ev.e = "Reset" /\ Keep
 TUnesc == l <= Len(Tr) /\ Ev.e = "Unesc" /\ Ev.out = Unesc(Ev.in) /\ Ev.n = Len(Ev.in) + 1 /\ Keep
-TLit == l <= Len(Tr) /\ Ev.e = "Lit" /\ Ev.out = Unesc(Ev.in) /\ Keep
+\* the tools end a printed value with a newline unless it ends in one already (dt_io_strfdt's auto-newline); out is the whole output
+AutoNL(s) == IF s # <<>> /\ s[Len(s)] = 10 THEN s ELSE s \o <<10>>
+TLit == l <= Len(Tr) /\ Ev.e = "Lit" /\ Ev.out = AutoNL(Unesc(Ev.in)) /\ Keep
 TNext == TReset \/ TUnesc \/ TLit
 TSpec == TInit /\ [][TNext]_<<vars, l>>
 Accepted == TLCGet("stats").diameter - 1 = Len(Tr)
